@@ -114,6 +114,8 @@ type Interp struct {
 	PinCall func(c *ssa.Call, idx int, st *State) (AV, bool)
 	// PinPath may fix the content of a memory cell addressed by access path.
 	PinPath func(path string) (AV, bool)
+	// PinLoad may fix the value of a load (consulted before PinPath; sees the instruction).
+	PinLoad func(ld *ssa.UnOp, path string) (AV, bool)
 	// FollowCall restricts which repository callees are interpreted (default: all with bodies).
 	FollowCall func(callee *ssa.Function) bool
 
@@ -460,6 +462,14 @@ func (in *Interp) eval1(v ssa.Value, st *State) AV {
 		switch n.Op {
 		case token.MUL:
 			key := in.PathKey(n.X, st)
+			if in.PinLoad != nil {
+				if av, ok := in.PinLoad(n, key); ok {
+					if m, ok2 := st.mem[key]; ok2 {
+						return m
+					}
+					return av
+				}
+			}
 			if in.PinPath != nil {
 				if av, ok := in.PinPath(key); ok {
 					// a store on this path overrides the pin
